@@ -371,7 +371,7 @@ static int run_c03_c04(Ctx & cx, const Args & a)
   size_t item = 0;
   auto mine = [&]() { return (item++ % nsh) == (size_t)shard; };
   if (is04) {
-    int nev = a.i("bkg_evts", thorough ? 60000 : 1500);
+    int nev = a.i("bkg_evts", thorough ? 3000000 : 250000);
     // every nuclide in every shard, shots split across shards
     for (auto & n : catalog::background_published()) {
       Cfg c; c.kind = "bkg"; c.name = n;
@@ -400,12 +400,12 @@ static int run_c03_c04(Ctx & cx, const Args & a)
   }
   // DBD grid
   auto grid = dbd_grid();
-  int nev = a.i("dbd_evts", thorough ? (is04 ? 3000 : 2500) : (is04 ? 250 : 200));
+  int nev = a.i("dbd_evts", thorough ? (is04 ? 3000 : 2500) : (is04 ? 600 : 600));
   size_t idx = 0;
   for (auto & c : grid) {
     size_t my = idx++;
     uint64_t h = mix(seed, my * 2654435761ULL + (is04 ? 4 : 3));
-    bool take = thorough ? true : ((c.level == 0 && h % 5 == 0) || h % 9 == 0);
+    bool take = thorough ? true : ((c.level == 0 && h % 2 == 0) || h % 4 == 0);
     if (!take) continue;
     if (!mine()) continue;
     run_config(cx, c, seed, nev, is04, "none");
@@ -487,7 +487,7 @@ static Res c05_prefix_pair(const std::string & a, const std::string & b, Tape & 
 static int run_c05(Ctx & cx, const Args & a)
 {
   uint64_t seed = a.i("seed", 1); int shard = a.i("shard", 0), nsh = a.i("nshards", 1); bool thorough = a.s("tier", "quick") == "thorough";
-  int nev = a.i("evts", thorough ? 40000 : 1500);
+  int nev = a.i("evts", thorough ? 400000 : 40000);
   auto names = catalog::background_published();
   // (1) own scheme, same deviates
   for (auto & n : names) {
@@ -499,6 +499,7 @@ static int run_c05(Ctx & cx, const Args & a)
       cx.rep.evaluations++;
       if (!r.ok) { PropFn fn = [&](Tape & t) { size_t u; bxdecay0::event e; return c05_event(c, t, u, e); }; report_failure(cx, c, it, tape, r, fn, used); continue; }
       cx.rep.nt("own|" + n + "|" + path_sig(ev));
+      if (cx.rep.samples.size() < 5 && tape.seed % 17 == 0) cx.rep.sample("{\"name\":" + jstr(n) + ",\"first_deviates\":" + jtape(tape.v, 6) + ",\"deviates_used\":" + std::to_string(used) + ",\"event_equals_own_scheme\":" + ev_json(ev) + "}");
     }
     cx.rep.label("own-scheme:" + n);
   }
@@ -510,7 +511,7 @@ static int run_c05(Ctx & cx, const Args & a)
     if (x == y || by.size() <= bx.size() || by.compare(0, bx.size(), bx) != 0) continue;
     if (!schemes::find(x) || !schemes::find(y)) continue;
     npairs++;
-    int np = thorough ? 4000 : 300;
+    int np = thorough ? 40000 : 4000;
     for (int k = shard; k < np; k += nsh) {
       Tape tape; tape.seed = mix(mix(seed, 0xC0502), mix(std::hash<std::string>()(x + "/" + y), k)); tape.prof = Profile();
       Res r = c05_prefix_pair(x, y, tape); cx.rep.evaluations++;
